@@ -7,16 +7,18 @@ From Coq Require Import String.
 
 (* Generic soundness of the analysis, unbounded in the entity state, the values stored and the number of loop
    iterations: on a path that passes [fp_ok], from any entity that is on file and whose watched fields agree with the
-   file, every unrolling leaves every watched field in memory equal to what the file holds. *)
+   file, every unrolling leaves every watched field in memory equal to what the file holds.
+   PARTIAL in one respect: [name_safe] - the entity is not (and is not being) named like the project; see
+   C03_project_name_refuted for what happens otherwise. *)
 Theorem C03_write_through_sound : forall watch p u vals e,
-  fp_ok watch p = true -> unroll p u -> onf e = true -> in_sync watch e ->
+  fp_ok watch p = true -> unroll p u -> onf e = true -> name_safe e vals -> in_sync watch e ->
   in_sync watch (run u 0 vals e).
 Proof. exact write_through_sound. Qed.
 Print Assumptions C03_write_through_sound.
 
 (* ... and the value both hold is the one of the last store (the assigned value, as formatted by the setter). *)
 Theorem C03_assigned_value_is_stored : forall watch p u vals e f i,
-  fp_ok watch p = true -> unroll p u -> onf e = true -> in_sync watch e -> In f watch -> last_store f u 0 = Some i ->
+  fp_ok watch p = true -> unroll p u -> onf e = true -> name_safe e vals -> in_sync watch e -> In f watch -> last_store f u 0 = Some i ->
   mem (run u 0 vals e) f = vals i /\ sto (run u 0 vals e) f = vals i.
 Proof. exact assigned_value_is_stored. Qed.
 Print Assumptions C03_assigned_value_is_stored.
@@ -24,7 +26,7 @@ Print Assumptions C03_assigned_value_is_stored.
 (* The same for a row of the extracted table: every normally-ending path of a setter that passes the table check. *)
 Theorem C03_pair_sound : forall q, In q T_pairs -> pair_ok T_funcs T_classes q = true ->
   forall p, In p (pair_paths T_funcs T_classes false q) ->
-  forall u vals e, unroll p u -> onf e = true -> in_sync (pair_watch T_classes q) e ->
+  forall u vals e, unroll p u -> onf e = true -> name_safe e vals -> in_sync (pair_watch T_classes q) e ->
   in_sync (pair_watch T_classes q) (run u 0 vals e).
 Proof.
   intros q _ Hok. unfold pair_ok in Hok. apply andb_true_iff in Hok as [Hok _]. apply andb_true_iff in Hok as [Hs _].
@@ -101,16 +103,36 @@ Proof.
 Qed.
 Print Assumptions C03_full_refuted.
 
+(* REFUTED without [name_safe]: H5Writer.fetch_handle returns the project node for anything whose name equals the
+   project's name.  Witness: the path of Entity.name (store the name, persist "attributes") passes the check, the
+   entity is on file and in sync, the value stored is the project's name - afterwards memory and file differ. *)
+Definition C03_any_value : Prop := forall watch p u vals e,
+  fp_ok watch p = true -> unroll p u -> onf e = true -> in_sync watch e -> in_sync watch (run u 0 vals e).
+
+Theorem C03_project_name_refuted : T_name_rule = true -> ~ C03_any_value.
+Proof.
+  intros _ H.
+  specialize (H [NAME] [X (FStore NAME); X (FPersist [NAME])] [FStore NAME; FPersist [NAME]] vals_ws e_ws).
+  assert (S : in_sync [NAME] (run [FStore NAME; FPersist [NAME]] 0 vals_ws e_ws)).
+  { apply H; try reflexivity. repeat constructor. intros f _. reflexivity. }
+  specialize (S NAME (or_introl eq_refl)). vm_compute in S. discriminate.
+Qed.
+Print Assumptions C03_project_name_refuted.
+
 (* non-vacuity: the hypotheses of the soundness theorem are met by a non-trivial path (a loop whose body stores and
    relies on the persistence call after the loop), and the on-file hypothesis is needed. *)
 Example C03_nonvacuous :
   let p := [X (FStore 1%N); L [[FStore 2%N]; []]; X (FPersist [1%N; 2%N]); X (FStore 3%N)] in
   fp_ok [1%N; 2%N] p = true /\ unroll p [FStore 1%N; FStore 2%N; FStore 2%N; FPersist [1%N; 2%N]; FStore 3%N]
-  /\ in_sync [1%N; 2%N] e0 /\ onf e0 = true
+  /\ in_sync [1%N; 2%N] e0 /\ onf e0 = true /\ name_safe e0 vals0 /\ name_safe e_ws (fun _ => 1%N)
   /\ fp_ok [1%N; 2%N; 3%N] p = false
-  /\ in_syncb [1%N] (run [FStore 1%N; FPersist [1%N]] 0 vals0 {| mem := fun _ => 0%N; sto := fun _ => 0%N; onf := false |}) = false.
+  /\ in_syncb [1%N] (run [FStore 1%N; FPersist [1%N]] 0 vals0
+                         {| mem := fun _ => 0%N; sto := fun _ => 0%N; onf := false; nrule := false; wsname := 0%N |}) = false.
 Proof.
-  repeat split; try reflexivity.
-  constructor. apply (un_iter [[FStore 2%N]; []] [FStore 2%N]); [left; reflexivity|].
-  apply (un_iter [[FStore 2%N]; []] [FStore 2%N]); [left; reflexivity|]. apply un_done. repeat constructor.
+  split; [reflexivity|]. split.
+  { constructor. apply (un_iter [[FStore 2%N]; []] [FStore 2%N]); [left; reflexivity|].
+    apply (un_iter [[FStore 2%N]; []] [FStore 2%N]); [left; reflexivity|]. apply un_done. repeat constructor. }
+  split; [intros f _; reflexivity|]. split; [reflexivity|]. split; [left; reflexivity|].
+  split; [right; split; [discriminate | intros _; discriminate]|].
+  split; reflexivity.
 Qed.
